@@ -201,7 +201,7 @@ def bounded(tier, seed, procs):
         if prod[0] != "val" or got != ref:
             b2.fail(Failure("multivectors", f"what=symbolic env={env}", dict(kind="ga2s", env=repr(env)), expected="reference product", actual=outcome.describe(prod)[:200],
                             functions=["MultiVector._generic_product"]))
-    return [b, b2, b_index_tuples(tier)]
+    return [b, b2, b_index_tuples(tier), b_same_coefficients(tier)]
 
 
 def b_index_tuples(tier):
@@ -249,6 +249,75 @@ def b_index_tuples(tier):
                 if r[0] != "exc":
                     b.fail(Failure("index-tuples", f"what=repeated-index-accepted dim={dim}", dict(kind="rep", dim=dim), expected="an error", actual=outcome.describe(r)[:100],
                                    functions=["Space.bits_and_sign"]))
+    return b
+
+
+def b_same_coefficients(tier):
+    """Equality, hash and truth value agree with coefficient-wise comparison, whatever constructor form or operation history produced the multivector."""
+    import itertools
+    import numpy as np
+    from pymbolic.geometric_algebra import MultiVector, Space
+    b = BoundedRun("same-coefficients", rule="groups of multivectors with the same coefficients built through every constructor form (scalar, bits mapping with and without "
+                   "explicit zero coefficients, index-tuple mapping, numpy vector) and through operations (a-a, 0*a, a+a, ...), in spaces of dimension 1..3: all pairs of a "
+                   "group are ==, not !=, hash equal and find each other in a set; pairs of different groups are !=; bool(m) iff some coefficient is non-zero; a scalar "
+                   "multivector equals its scalar (both operand orders), the zero multivector equals 0", bound="3 spaces x 4 groups x all pairs",
+                   functions=["MultiVector.__init__", "__eq__", "__ne__", "__hash__", "__bool__"])
+    for dim in (1, 2, 3):
+        g = (1, -1, 2)[:dim]
+        sp = Space([f"e{i}" for i in range(dim)], np.diag(np.array(g, dtype=object)))
+        mk = lambda d: MultiVector(d, sp)        # noqa: E731
+        e0 = mk({1: 1})
+        one = mk(1)
+        groups = {
+            "zero": [lambda: mk(0), lambda: mk({}), lambda: mk({0: 0}), lambda: mk({1: 0}), lambda: e0 - e0, lambda: 0 * e0, lambda: e0 * 0, lambda: mk({(0,): 0}),
+                     lambda: mk(np.zeros(dim, dtype=object) * 0), lambda: mk(0.0), lambda: mk(Fraction(0)), lambda: mk({0: 0, 1: 0}), lambda: one - 1, lambda: mk(2) - mk(2)],
+            "2e0": [lambda: mk({1: 2}), lambda: mk({1: 2, 0: 0}), lambda: mk({(0,): 2}), lambda: e0 + e0, lambda: 2 * e0, lambda: e0 * 2, lambda: mk({1: 3}) - e0,
+                    lambda: mk({1: 2}) + 0, lambda: mk({1: 2}) + mk(0)],
+            "3": [lambda: mk(3), lambda: mk({0: 3}), lambda: mk({(): 3}), lambda: 3 * one, lambda: one + 2, lambda: mk({0: 3, 1: 0}), lambda: mk(3) + (e0 - e0)],
+            "e0+1": [lambda: e0 + 1, lambda: 1 + e0, lambda: mk({0: 1, 1: 1}), lambda: mk({(): 1, (0,): 1}), lambda: mk({1: 1}) + one],
+        }
+        if dim >= 2:
+            e1 = mk({2: 1})
+            groups["2e0"] += [lambda: (e0 + e1) + (e0 - e1), lambda: mk({1: 2, 2: 0}), lambda: mk({(0,): 2, (1,): 0}), lambda: mk({1: 2, 3: 0})]
+            groups["zero"] += [lambda: e0 * e1 + e1 * e0, lambda: mk({(0, 1): 1, (1, 0): 1}), lambda: mk({3: 0})]
+        built = {}
+        for gname, forms in groups.items():
+            built[gname] = []
+            for i, f in enumerate(forms):
+                r = outcome.run(f)
+                b.case(("build", dim, gname, i))
+                if r[0] != "val":
+                    b.fail(Failure("same-coefficients", f"what=construction-raised dim={dim} group={gname} form={i}", dict(kind="ga-same", dim=dim, group=gname, form=i),
+                                   expected="a multivector", actual=outcome.describe(r)[:200], functions=["MultiVector.__init__"]))
+                    continue
+                built[gname].append((i, r[1]))
+        for gname, ms in built.items():
+            nonzero = gname != "zero"
+            for (i, u), (j, v) in itertools.product(ms, repeat=2):
+                r = outcome.run(lambda: (u == v, not (u != v), hash(u) == hash(v), u in {v}, bool(u) == nonzero))
+                b.case(("pair", dim, gname, i, j), sample=dict(dim=dim, group=gname, forms=[i, j]))
+                if r != ("val", (True,) * 5):
+                    names = ("==", "!=", "hash", "set-member", "bool")
+                    bad = [n for n, ok in zip(names, r[1])if not ok] if r[0] == "val" else ["raised"]
+                    b.fail(Failure("same-coefficients", f"what=same-coefficients-differ dim={dim} group={gname} forms={i},{j} wrong={','.join(bad)} data={u.data!r} vs {v.data!r}",
+                                   dict(kind="ga-same", dim=dim, group=gname, forms=[i, j]), expected="equal, not unequal, same hash, set member, truth value by coefficients",
+                                   actual=outcome.describe(r)[:200], functions=["MultiVector.__eq__", "__hash__", "__bool__", "__init__"]))
+            scalar = {"zero": 0, "3": 3}.get(gname)
+            if scalar is not None:
+                for i, u in ms:
+                    r = outcome.run(lambda: (u == scalar, scalar == u, not (u != scalar)))
+                    b.case(("scalar", dim, gname, i))
+                    if r != ("val", (True, True, True)):
+                        b.fail(Failure("same-coefficients", f"what=scalar-comparison dim={dim} group={gname} form={i} scalar={scalar} data={u.data!r}",
+                                       dict(kind="ga-same", dim=dim, group=gname, forms=[i]), expected=f"== {scalar}", actual=outcome.describe(r)[:200],
+                                       functions=["MultiVector.__eq__", "_cast_or_ni", "__init__"]))
+        for (ga, ma), (gb, mb) in itertools.combinations(built.items(), 2):
+            for (i, u), (j, v) in itertools.product(ma, mb):
+                r = outcome.run(lambda: (u != v, not (u == v)))
+                b.case(("cross", dim, ga, gb, i, j))
+                if r != ("val", (True, True)):
+                    b.fail(Failure("same-coefficients", f"what=different-coefficients-equal dim={dim} groups={ga},{gb} forms={i},{j}", dict(kind="ga-same", dim=dim, group=ga, forms=[i, j]),
+                                   expected="unequal", actual=outcome.describe(r)[:200], functions=["MultiVector.__eq__"]))
     return b
 
 
